@@ -1,9 +1,9 @@
 package props
 
 import (
-	"os"
 	"fmt"
 	"math/rand"
+	"os"
 	"sync"
 	"testing"
 	"time"
@@ -681,7 +681,7 @@ type c34ClientCase struct {
 	// keyUpdates > 0: after the handshake the client sends that many valid KeyUpdate records
 	keyUpdates       int
 	keyUpdateRequest bool
-	echReal  bool                       // client uses the server's real ECH config
+	echReal          bool // client uses the server's real ECH config
 }
 
 func clientMsgMuts(typ byte, tls13 bool) []fieldMut {
